@@ -305,6 +305,10 @@ def build_class(prog, rec, W, decorated=True):
                 rec_.record_data(s['k'], V.build(s['v']))
             elif t == 'sleep':
                 time.sleep(s['ms'] / 1000.0)
+            elif t == 'toggle':
+                # the service (or an admin thread) switches recording off / on while the operation runs
+                if hasattr(rec_, 'enable_recording'):
+                    (rec_.enable_recording if s['on'] else rec_.disable_recording)()
             elif t == 'mutate_last':
                 prev = [x for x in seen if x[0] == 'v']
                 if prev:
@@ -369,6 +373,20 @@ def build_class(prog, rec, W, decorated=True):
             return None
         if mode == 'junk_int':
             return 7
+        if mode == 'calls_output':
+            # the extractor uses the service's own (intercepted) functions; it runs after the operation
+            target = a[0] if a else None
+            inst_ = target() if isinstance(target, type) else target
+            if inst_ is not None:
+                if prog['outs']:
+                    inst_.out0('from-extractor')
+                if prog['ins'] and prog['ins'][0]['kind'] != 'property':
+                    W.tl.cur = {'sid': 'extractor.in', 'beh': 'ret', 'ret': 'extractor-read', 'name': 'n1'}
+                    try:
+                        inst_.in0('ex', 'tractor')
+                    finally:
+                        W.tl.cur = None
+            return {'user_key': 'user value'}
         if mode == 'junk_list':
             return [1, 2]
         if mode == 'junk_keys':         # a mapping, but not with string keys
